@@ -2747,7 +2747,7 @@ template< size_t L> inline
       // str.length() == 5
       // make space:  goodbyex....farewell
       // copy:        goodbye and farewell
-      std::memmove( &mString[ pos1 + copy_len - count1 + 1],
+      std::memmove( &mString[ pos1 + copy_len],
          &mString[ pos1 + count1],
          mLength - pos1 - count1);
       std::memcpy( &mString[ pos1], &str[ pos2], copy_len);
